@@ -13,7 +13,10 @@ def run(tier):
     beh = [b for b in beh if '"sections-gv"' not in b[:100]]
     if tier != "thorough":
         geo = [b for b in beh if '"geometry"' in b[:400]]
-        beh = [b for b in beh if '"geometry"' not in b[:400]][::2] + geo[::3]
+        import zlib
+        # every second placement / third table, chosen by a hash (a stride would pick one value of an alternating dimension only)
+        pick = lambda b, n: zlib.crc32(b.encode()) % n == c.seed % n
+        beh = [b for b in beh if '"geometry"' not in b[:400] and pick(b, 2)] + [b for b in geo if pick(b, 3)]
     beh += gv
     res = replay.replay(exe, beh, shards=16, timeout_s=120)
     c.add_replay(res, "as-written vs explicit vs repeated layouts (bitwise), resolved values, interpolation bounds, locality of an override")
